@@ -3,6 +3,7 @@
 # usage: selftest/drill.sh <patch.diff | revert:<commit>> <ID>[,<ID>...] [tier]
 # The scratch copy lives outside /repo and /verif and is removed afterwards; evidence/replays go to a temp dir.
 PATCH="$1"; IDS="$2"; TIER="${3:-quick}"
+case "$PATCH" in revert:*|/*) ;; *) PATCH="$PWD/$PATCH";; esac
 HERE="$(cd "$(dirname "$0")/.." && pwd)"
 MUT=$(mktemp -d /tmp/pvmut.XXXXXX)
 trap 'rm -rf "$MUT"' EXIT
